@@ -21,7 +21,7 @@ def run_mutant(m, tier="quick", jobs=None):
     d = tempfile.mkdtemp(prefix="iopt_mut_%s_" % m["name"])
     try:
         repo = os.path.join(d, "repo")
-        shutil.copytree("/repo", repo, ignore=shutil.ignore_patterns(".git", "docs", "examples", "__pycache__", "*.egg-info"))
+        shutil.copytree("/repo", repo, ignore=shutil.ignore_patterns(".git", "docs", "__pycache__", "*.egg-info", "*.xls", "*.xml", "*.ipynb", "Machine_learning", "Genetic_algorithm"))
         edits = m.get("edits") or [{"file": m["file"], "old": m["old"], "new": m["new"]}]
         for e in edits:
             p = os.path.join(repo, e["file"])
